@@ -96,6 +96,11 @@ func runRedact(route int, sp bool, format string, args []interface{}) (o outcome
 // redactable operand is itself a library call that may propagate a user
 // panic) and performs the call through route.
 func runCall(route int, c *Call) (o outcome, built bool) {
+	return runCallWith(newBuildCtx(), route, c)
+}
+
+// runCallWith is runCall with a caller-supplied build context.
+func runCallWith(bc *buildCtx, route int, c *Call) (o outcome, built bool) {
 	var args []interface{}
 	func() {
 		defer func() {
@@ -104,7 +109,6 @@ func runCall(route int, c *Call) (o outcome, built bool) {
 				o.pval = r
 			}
 		}()
-		bc := newBuildCtx()
 		args = c.operands(bc.real)
 		built = true
 	}()
